@@ -73,6 +73,7 @@ type Exec struct {
 	effBusy      map[*ssa.Function]bool
 	curPos       token.Pos
 	prevTop      string
+	guards       []string
 	nret         int
 	clauseFn     *ssa.Function // function whose contract clauses are being instantiated (free variables by name)
 	curBlock     *ssa.BasicBlock
@@ -842,6 +843,8 @@ func (x *Exec) evalClauseFn(name string, args []*Val, st *State, old *State) str
 	defer func() { x.spec--; x.oldState = savedOld; x.stack, x.depth = savedStack, savedDepth }()
 	s2 := st.clone()
 	s2.pc = "true"
+	x.guards = append(x.guards, st.pc)
+	defer func() { x.guards = x.guards[:len(x.guards)-1] }()
 	rv, _ := x.run(fn, args, nil, s2, false, nil)
 	return rv.S
 }
@@ -873,8 +876,20 @@ func (x *Exec) execBlock(f *frame, b *ssa.BasicBlock, st *State) {
 			rs := st.clone()
 			if f.top {
 				// vacuity guard: this return must be reachable under the assumptions made so far
-				x.nret++
-				x.obls = append(x.obls, &Obligation{Name: fmt.Sprintf("%s/cover/return#%d", shortKey(x.P, fnKey(x.root)), x.nret), Kind: "cover", Func: fnKey(x.root), Pos: x.sc.pos(), Goal: not(rs.pc), Src: x.srcPos(v.Pos())})
+				ord := returnOrdinal(f.fn, v)
+				dead := false
+				if f.ctr != nil {
+					for _, d := range f.ctr.DeadReturns {
+						if d == ord {
+							dead = true
+						}
+					}
+				}
+				kind := "cover"
+				if dead {
+					kind = "dead" // declared unreachable by the contract: must indeed be unreachable
+				}
+				x.obls = append(x.obls, &Obligation{Name: fmt.Sprintf("%s/%s/return@%d", shortKey(x.P, fnKey(x.root)), kind, ord), Kind: kind, Func: fnKey(x.root), Pos: x.sc.pos(), Goal: not(rs.pc), Src: x.srcPos(v.Pos())})
 				x.checkPost(f, rs, vals, v.Pos())
 			}
 			f.rets = append(f.rets, retInfo{rs, vals, v.Pos()})
@@ -1047,4 +1062,26 @@ func (x *Exec) fpConst(v constant.Value) string {
 	}
 	num, den := r.Num(), r.Denom()
 	return fmt.Sprintf("((_ to_fp 11 53) RNE (/ %s.0 %s.0))", num.String(), den.String())
+}
+
+// returnOrdinal numbers the return statements of fn in source order (1-based).
+func returnOrdinal(fn *ssa.Function, r *ssa.Return) int {
+	var all []*ssa.Return
+	for _, b := range fn.Blocks {
+		for _, ins := range b.Instrs {
+			if rr, ok := ins.(*ssa.Return); ok {
+				if fn.Recover != nil && b == fn.Recover {
+					continue
+				}
+				all = append(all, rr)
+			}
+		}
+	}
+	sort.SliceStable(all, func(i, j int) bool { return all[i].Pos() < all[j].Pos() })
+	for i, rr := range all {
+		if rr == r {
+			return i + 1
+		}
+	}
+	return 0
 }
